@@ -62,6 +62,8 @@ where
     /// call `wait()`.
     pub fn dispatch(&mut self) {
         let (snd, mut inner) = self.data.sender();
+        #[cfg(feature = "verif-hooks")]
+        verif_point("async-dispatch-before-spawn");
 
         self.thread_pool
             .read()
@@ -75,6 +77,8 @@ where
                     stage.execute(world);
                 }
 
+                #[cfg(feature = "verif-hooks")]
+                verif_point("async-job-before-send");
                 let _ = snd.send(inner);
             });
     }
@@ -148,6 +152,18 @@ impl<R> AsyncDispatcher<'_, R> {
             inner.stages.iter().map(Stage::verif_group_sizes).collect(),
             self.thread_local.len(),
         )
+    }
+}
+
+/// Verification hook: a scheduler point of the external simulator at the two places where the
+/// background job and the caller hand the state over. A no-op unless the `verif-hooks` feature
+/// is on (without it neither this function nor its call sites exist) and a callback was
+/// installed with `shred::verif_set_point`.
+#[cfg(feature = "verif-hooks")]
+fn verif_point(what: &'static str) {
+    let f = *crate::VERIF_POINT.read().unwrap();
+    if let Some(f) = f {
+        f(what);
     }
 }
 
